@@ -143,6 +143,14 @@ def run(ctx):
             raise Machinery("abstract layout model violates %s: %s" % (r.violated, r.trace_text))
         ctx.log("SwapperBoxMC %s: %d candidates in %.1fs" % (what, len(r.rows), r.wall))
         cands += r.rows
+    # the implementation-shaped moves between layout groups (scatter / Allgather + per-rank unpack / local move on numpy views)
+    # refine LayoutAbs on their box
+    for what, nd, ext, mp in ([("3-D ext<=3, grids to 3x3", 3, 3, 3)] if quick else [("3-D ext<=4, grids to 3x3", 3, 4, 3), ("4-D ext<=2, grids to 2x2", 4, 2, 2)]):
+        r = ctx.tlc("SwapperMC", "INIT Init\nNEXT Next\nCONSTANTS ND = %d MaxExt = %d MaxP = %d\nINVARIANT NoError\nINVARIANT DestCorrect\nINVARIANT SourceIntact\nCHECK_DEADLOCK FALSE\n" % (nd, ext, mp),
+                    what="Swapper refines LayoutAbs: " + what, timeout=7200, big=not quick)
+        ctx.log("SwapperMC %s: %d states in %.1fs %s" % (what, r.distinct, r.wall, r.violated or "ok"))
+        if r.violated:
+            ctx.drift_report("Swapper.tla (transcription of the moves between layout groups) violates %s on '%s': %s" % (r.violated, what, (r.trace_text or "")[:600]))
     # the driver's own grouping on several shapes / grids
     for sh in ([4, 5, 6], [5, 7, 6], [6, 6, 6], [3, 9, 4]):
         for n1 in (1, 2, 3):
